@@ -5,6 +5,7 @@ import BeffVerif.Props.C13Rec
 import BeffVerif.Props.C13Names
 import BeffVerif.Props.C13Total
 import BeffVerif.Props.C13Hash32
+import BeffVerif.Props.C13Total32
 import BeffVerif.Props.Consts
 open BeffVerif.C13
 #print axioms writer_digest_eq_spec
@@ -42,3 +43,4 @@ open BeffVerif.C13
 #print axioms BeffVerif.C13N.hash32_alias_hop
 #print axioms BeffVerif.C13N.hash32_member_order
 #print axioms BeffVerif.Consts.hash256_tags_current
+#print axioms BeffVerif.C13T.hash32_total
